@@ -172,6 +172,7 @@ type gsWorld struct {
 	removalReorged bool
 	fep            bool
 	fepFrom        uint64
+	reorged        bool
 	ctl            *sql.DB // second connection: arms the one-shot storage fault of `poll!`
 	faulted        int
 }
@@ -292,7 +293,11 @@ func (w *gsWorld) exec(r *Run, line string) string {
 			INSERT INTO verif_fault VALUES (1,0,0,0);`)
 		must(err)
 		for ti, t := range []string{"INSERT ON block", "INSERT ON imported_global_exit_root", "DELETE ON imported_global_exit_root"} {
-			_, err = w.ctl.Exec(fmt.Sprintf(`CREATE TRIGGER verif_f_%d BEFORE %s WHEN (SELECT armed FROM verif_fault)=1 BEGIN
+			cond := "=1"
+			if ti > 0 {
+				cond = " IN (1,2)" // mode 2 counts the GER statements only (row insert / removal delete)
+			}
+			_, err = w.ctl.Exec(fmt.Sprintf(`CREATE TRIGGER verif_f_%d BEFORE %s WHEN (SELECT armed FROM verif_fault)`+cond+` BEGIN
 				UPDATE verif_fault SET n = n + 1;
 				SELECT CASE WHEN (SELECT n FROM verif_fault) - 1 = (SELECT target FROM verif_fault) THEN RAISE(FAIL,'verif fault') END; END;`, ti, t))
 			must(err)
@@ -339,7 +344,11 @@ func (w *gsWorld) exec(r *Run, line string) string {
 		t := bigOf(ws[1]).Uint64()
 		if ws[0] == "poll!" {
 			// one storage statement of this poll's block processing fails once; the driver retries the block
-			_, err := w.ctl.Exec(`UPDATE verif_fault SET armed=1, target=$1, n=0`, bigOf(ws[2]).Uint64())
+			k, mode := bigOf(ws[2]).Uint64(), 1
+			if k >= 1000 {
+				k, mode = k-1000, 2
+			}
+			_, err := w.ctl.Exec(`UPDATE verif_fault SET armed=$1, target=$2, n=0`, mode, k)
 			must(err)
 			defer func() {
 				_, err := w.ctl.Exec(`UPDATE verif_fault SET armed=0`)
@@ -364,6 +373,7 @@ func (w *gsWorld) exec(r *Run, line string) string {
 		obs = w.settle()
 	case "reorg":
 		b := bigOf(ws[1]).Uint64()
+		w.reorged = true
 		// as EVMDriver.handleReorg: stop the downloader, Reorg, restart at lastProcessed+1
 		w.stopDownloader()
 		w.cl.mu.Lock()
@@ -468,6 +478,9 @@ func (w *gsWorld) exec(r *Run, line string) string {
 			}
 			cp := append([]string{"new pp"}, w.lines...)
 			tag := "[C16]"
+			if w.reorged {
+				tag = "[C16,C04] (after a reorg in this world)"
+			}
 			if w.faulted > 0 {
 				tag = "[C16,C07] (a storage fault was injected and the block retried earlier in this world)"
 			}
@@ -506,6 +519,7 @@ func gsGen(r *Run, rng *Rng) {
 		tip := uint64(0)
 		nextGER, nextIdx := uint64(1), uint64(rng.Intn(3))
 		var live []uint64
+		var past [][2]uint64 // (GER, index) pairs injected so far
 		steps := 6 + rng.Intn(10)
 		allowRm := i%3 != 2
 		for s := 0; s < steps; s++ {
@@ -513,6 +527,22 @@ func gsGen(r *Run, rng *Rng) {
 			grow := uint64(1 + rng.Intn(3))
 			if rng.Chance(40) {
 				grow = uint64(2 + rng.Intn(11))
+			}
+			if rng.Chance(6) {
+				// the node was down (or the chain raced ahead): thousands of blocks between two polls, a few of them with events,
+				// spread over the whole stretch (the downloader fetches logs in windows)
+				grow = uint64(1000 + rng.Intn(1600))
+				for _, off := range []uint64{uint64(1 + rng.Intn(900)), uint64(1001 + rng.Intn(int(grow)-1000)), grow - uint64(rng.Intn(3))} {
+					w.exec(r, fmt.Sprintf("l2blk %d ins %d %d", tip+off, nextGER, nextIdx))
+					live = append(live, nextGER)
+					past = append(past, [2]uint64{nextGER, nextIdx})
+					nextGER++
+					nextIdx += 1 + uint64(rng.Intn(3))
+				}
+				r.Count("branch:long-gap-between-polls")
+				tip += grow
+				w.exec(r, fmt.Sprintf("poll %d", tip))
+				grow = 0
 			}
 			for b := tip + 1; b <= tip+grow; b++ {
 				if rng.Chance(35) {
@@ -526,10 +556,19 @@ func gsGen(r *Run, rng *Rng) {
 							lag = fmt.Sprintf(" lag=%d", 1+rng.Intn(3)) // the node's own L1 syncer indexes that leaf a little later
 							r.Count("branch:l1-lag")
 						}
-						w.exec(r, fmt.Sprintf("l2blk %d ins %d %d%s", b, nextGER, nextIdx, lag))
-						live = append(live, nextGER)
-						nextGER++
-						nextIdx += 1 + uint64(rng.Intn(3))
+						if len(past) > 0 && rng.Chance(15) {
+							// the same root is injected again (e.g. after its removal, or by a second oracle round)
+							p := past[rng.Intn(len(past))]
+							w.exec(r, fmt.Sprintf("l2blk %d ins %d %d", b, p[0], p[1]))
+							live = append(live, p[0])
+							r.Count("branch:re-injection")
+						} else {
+							w.exec(r, fmt.Sprintf("l2blk %d ins %d %d%s", b, nextGER, nextIdx, lag))
+							live = append(live, nextGER)
+							past = append(past, [2]uint64{nextGER, nextIdx})
+							nextGER++
+							nextIdx += 1 + uint64(rng.Intn(3))
+						}
 					}
 				}
 			}
@@ -541,7 +580,11 @@ func gsGen(r *Run, rng *Rng) {
 			if rng.Chance(15) {
 				// a storage fault on one of the first statements of this poll's blocks (block row / GER row / GER delete)
 				f0 := w.faulted
-				w.exec(r, fmt.Sprintf("poll! %d %d", tip, rng.Intn(4)))
+				k := rng.Intn(4)
+				if rng.Bool() {
+					k = 1000 + rng.Intn(3) // one of the poll's first GER statements (insert or removal)
+				}
+				w.exec(r, fmt.Sprintf("poll! %d %d", tip, k))
 				if w.faulted > f0 {
 					r.Count("branch:storage-fault-hit")
 				}
